@@ -297,7 +297,7 @@ def minimage_oracle(ck, L, raw, got, kind):
     inp = {"L": np.asarray(L).tolist(), "raw_displacement": [float(x) for x in raw], "branch": kind}
     n = (np.asarray(got) - raw) @ np.linalg.inv(L)
     scale = max(1.0, float(np.max(np.abs(raw))))
-    if not np.allclose(n, np.rint(n), atol=1e-9 * scale):
+    if not np.allclose(n, np.rint(n), atol=1e-9 * scale, rtol=0):
         ck.violation("minimage_not_lattice_image", S_DIST, inp, expected="returned - raw = lattice vector", got={"returned": [float(x) for x in got], "coeffs": n.tolist()})
         return False
     best, R = brute_min(np.asarray(L, dtype=float), np.asarray(raw, dtype=float))
@@ -340,7 +340,7 @@ def check_bookkeeping(ck):
         cfg = PeriodicConfigs(init.copy(), La)
         st0 = snapshot(cfg)
         # the constructor itself: unwrapped positions = the raw input
-        if not np.allclose(unwrapped(cfg, La), init, atol=1e-12):
+        if not np.allclose(unwrapped(cfg, La), init, atol=1e-12, rtol=0):
             ck.violation("configs_constructor_unwrapped", S_CONF, {"L": L, "init": init.tolist()}, expected=init.tolist(), got=unwrapped(cfg, La).tolist())
         ops_coq, ops_log = [], []
         expect_unw = unwrapped(cfg, La).copy()
@@ -363,7 +363,7 @@ def check_bookkeeping(ck):
                     new = cfg.make_irreducible(e, vec.copy(), mask=None if kind == "move" else mask)
                     # trial position: unwrapped = raw vector + current wrap of electron e
                     tu = new.configs + new.wrap @ La
-                    if not np.allclose(tu, vec + before[1][:, e] @ La, atol=1e-12):
+                    if not np.allclose(tu, vec + before[1][:, e] @ La, atol=1e-12, rtol=0):
                         ck.violation("trial_unwrapped", S_CONF, {"L": L, "vec": vec.tolist()}, expected=(vec + before[1][:, e] @ La).tolist(), got=tu.tolist())
                     cfg.move(e, new, accept)
                     for w in range(n):
@@ -416,7 +416,7 @@ def check_bookkeeping(ck):
                 okseq = False
                 break
             ops_log.append(str(kind))
-            if not np.allclose(unwrapped(cfg, La), expect_unw, atol=1e-12):
+            if not np.allclose(unwrapped(cfg, La), expect_unw, atol=1e-12, rtol=0):
                 ck.violation("unwrapped_position_not_preserved", S_CONF, {"L": L, "ops": ops_log, "init": init.tolist()}, expected=expect_unw.tolist(), got=unwrapped(cfg, La).tolist(),
                              oracle="configs + wrap . L tracked independently")
                 okseq = False
@@ -455,7 +455,7 @@ def check_bookkeeping(ck):
             continue
         tu = new.configs + new.wrap @ L
         ex = vec + (cfg.wrap[:, 1] @ L)[:, np.newaxis, :]
-        if not np.allclose(tu, ex, atol=1e-10):
+        if not np.allclose(tu, ex, atol=1e-10, rtol=0):
             ck.violation("trial_unwrapped", S_CONF, {"L": L.tolist(), "aux": True, "masked": mask is not None}, expected=ex.tolist(), got=tu.tolist())
 
 
